@@ -7,16 +7,27 @@ from harness import rcsim
 from harness.common import Ctx, Driver, compare_with_model, load_corpus, shrink_list
 
 ID = "C10"
-SIGS = {"attempt-while-connected", "two-connectors", "attempt-after-shutdown", "waiter-wrong-error", "waiter-unbounded", "retries-ended", "busy-loop", "backoff-too-short", "backoff-too-long", "address-excluded", "immediate-retry-same-address"}
+SIGS = {"attempt-while-connected", "two-connectors", "attempt-after-shutdown", "waiter-wrong-error", "waiter-unbounded", "retries-ended", "busy-loop", "backoff-too-short", "backoff-too-long", "address-excluded", "immediate-retry-same-address",
+        "attempt-after-close", "update-raised"}
 RULE = ("fault sequences x schedules on the simulated network (virtual time, unpatched IpPairing/SecureHomeKitConnection against a scaffold accessory doing a real pair-verify): "
         "(A) EVERY sequence of pair-verify outcome classes {success, wrong pairing id, authentication error, other error, no answer} up to length 3 (quick) / 5 (thorough) "
         "x 1..3 advertised addresses x TCP outcomes {refused, timeout, connects to k-th address}, concrete accessory behaviour per class drawn from "
         "{bad signature, error TLV 1..7 at M2/M4, peer close at M1/M3, HTTP 470, malformed public key}; (B) EVERY schedule up to depth 3 (quick) / 4 (thorough) over "
         "{ensure-connection with/without own timeout, cancel caller, advance 0.75 s / 12 s, zeroconf update same/changed addresses, close, shutdown, accessory drops a connection, a reply that makes the request layer abandon the session (malformed JSON, HTTP 470)}; "
-        "(C) random mixed histories incl. hour-long runs that reach the 60 s cap. non-trivial = distinct (addresses, history)")
+        "(C) random mixed histories incl. hour-long runs that reach the 60 s cap; "
+        "(D) composite events - two or three actions issued back-to-back in ONE event-loop iteration (or 1..4 bare iterations apart), which 'one event, then quiescence' cannot produce: EVERY ordered pair over "
+        "{close, shutdown, ensure-connection, a public request (get_characteristics), zeroconf update same/changed addresses, cancel caller, accessory drops a connection} in EVERY phase of the supervisor "
+        "{idle, connected, TCP connect in flight, pair-verify unanswered, asleep in the back-off, ended by authentication failure, closed, closed while retrying, session lost}, spaced pairs, triples, and random histories "
+        "with composite events spliced in; the Lean model has no composite event, so these histories are tied to the model only up to their first composite event and judged by the implementation-level oracles after it "
+        "(single connector AT EVERY INSTANT - seen when the library creates the task - , census, waiter outcomes, silence after a close that covers every request made before it was called, never anything after shutdown; "
+        "a request made WHILE a close is in progress may be ordered either way); "
+        "(E) a sample of histories run with a damaged / altered pairing record (see C11). non-trivial = distinct (addresses, history, record)")
 TRUSTED = ["harness/simnet.py virtual-time loop and in-memory transport follow the asyncio contracts the code relies on", "harness/acc.py scaffold accessory (pair-verify via `cryptography`)",
-           "aiohappyeyeballs.start_connection / loop.create_connection are replaced by the simulated network", "async_interrupt wakes the sleeping connector within the same virtual instant"]
-ASSUMPTIONS = ["one model event = one harness action followed by running the loop to quiescence at that virtual instant",
+           "aiohappyeyeballs.start_connection / loop.create_connection are replaced by the simulated network", "async_interrupt wakes the sleeping connector within the same virtual instant",
+           "the task factory of the simulated loop sees every task the library creates; connector tasks are recognised by their coroutine (`_reconnect`), as in the census at quiescence"]
+ASSUMPTIONS = ["one model event = one harness action followed by running the loop to quiescence at that virtual instant (composite events, stream D, are outside the model: implementation-level oracles only)",
+               "a request for the connection made after close() was called but before it returned is concurrent with the close: the close may cover it (nothing runs afterwards) or it may count as a new request (the pairing re-opens) - "
+               "the unchanged library does either, depending on how far the close has got; what is demanded in both cases is a single connector at every instant, the census, bounded waits and no request surviving a shutdown",
                "timers that fall on the same virtual instant: a waiting caller's deadline is processed before the connector's timer (the caller's cancellation is requested before the connector task can finish); the harness uses odd-unit caller timeouts so other ties do not arise",
                "address lists are single-family: IPv4 literals, or (every fifth history) scoped link-local IPv6 addresses that the socket reports in another textual form, so that _normalize_host is exercised; happy-eyeballs interleaving across families is outside the model"]
 EXPLANATION = ("Lean theorems C10_* over the supervisor automaton HapVerif.Reconnect (back-off table and bounds, single connector, what ends the retries, immediate retries need a new exclusion, every round after a sleep "
@@ -38,7 +49,14 @@ def cases_for(ctx):
     for _ in range(ctx.budget(60, 1200)):
         h, e = rcsim.gen_random(rng, long_run=True)
         cases.append((h, e, "random-long"))
+    cases += composite_cases(ctx, ctx.budget(150, 3000), ctx.budget(120, 3000), ctx.budget(100, 3000))
+    for h, e, rec in rcsim.gen_record_histories(rng, ctx.budget(40, 1500)):
+        cases.append((h, e, "record", {"record": rec}))
     return cases
+
+
+def composite_cases(ctx, n_spaced, n_triples, n_random):
+    return [(h, e, "composite-" + kind, {"phase": phase}) for h, e, kind, phase in rcsim.gen_composites(ctx.rng, n_spaced, n_triples, n_random)]
 
 
 def run_cases(ctx: Ctx, driver: Driver, pid, sigs, cases):
@@ -46,36 +64,64 @@ def run_cases(ctx: Ctx, driver: Driver, pid, sigs, cases):
     cls = Counter()
     minimized = {}
     maxv = 0.0
-    for i, (hosts, events, kind) in enumerate(cases):
-        family = "v6" if (i % 5 == 4 and kind != "corpus") else "v4"
-        sim = rcsim.run_scenario(hosts, events, seed=ctx.seed * 1000003 + i, family=family)
+    for i, tup in enumerate(cases):
+        hosts, events, kind = tup[:3]
+        extra = tup[3] if len(tup) > 3 else {}
+        record = extra.get("record")
+        family = extra.get("family") or ("v6" if (i % 5 == 4 and kind != "corpus") else "v4")
+        seed = extra["seed"] if extra.get("seed") is not None else ctx.seed * 1000003 + i
+        sim = rcsim.run_scenario(hosts, events, seed=seed, family=family, record=record)
         ctx.dist["family:" + family] += 1
         ctx.evaluations += 1
-        ctx.nontrivial.add((tuple(hosts), tuple(events)))
+        ctx.nontrivial.add((tuple(hosts), tuple(events)) if record is None else (tuple(hosts), tuple(events), record))
         ctx.dist["kind:" + kind] += 1
         ctx.dist["hosts:%d" % len(hosts)] += 1
+        if record is not None:
+            ctx.dist["record:" + record] += 1
+        if extra.get("phase"):
+            ctx.dist["composite-in-phase:" + extra["phase"]] += 1
         for e in events:
+            if "+" in e:
+                ctx.dist["ev:composite"] += 1
+                acts = [x.split(":")[0] for x in e.split("+")]
+                ctx.dist["composite:" + "+".join(a for a in acts if a != ".")] += 1
+                ctx.dist["composite-gap:%d" % acts.count(".")] += 1
+                continue
             f = e.split(":")
             ctx.dist["ev:" + (f[0] if f[0] != "v" else "v:" + f[1])] += 1
+        if sim.stats.get("record_refused"):
+            ctx.dist["record-refused-at-construction:" + sim.stats["record_refused"]] += 1
         ctx.dist["attempts"] += sim.stats.get("attempts", 0)
         ctx.dist["connections"] += sim.stats.get("connections", 0)
         maxv = max(maxv, sim.stats.get("virtual_seconds", 0))
-        case = {"stream": "supervisor", "hosts": hosts, "events": events, "kind": kind, "seed": ctx.seed * 1000003 + i, "family": family}
+        case = {"stream": "supervisor", "hosts": hosts, "events": events, "kind": kind, "seed": seed, "family": family}
+        if record is not None:
+            case["record"] = record
         seen = set()
         for sig, text in sim.problems:
+            if sig not in sigs:
+                ctx.dist["other-oracle:" + sig] += 1  # the other property's business (C10 <-> C11), or noted only
             if sig in sigs and sig not in seen:
                 seen.add(sig)
                 vcase = dict(case)
                 if sig not in minimized and len(minimized) < 4:
                     # shrink the first history of each kind to a minimal one that still fails the same way
-                    small = shrink_list(events, lambda evs, sig=sig: any(s2 == sig for s2, _ in rcsim.run_scenario(hosts, evs, seed=vcase["seed"], family=vcase["family"]).problems))
+                    small = shrink_list(events, lambda evs, sig=sig: any(s2 == sig for s2, _ in rcsim.run_scenario(hosts, evs, seed=vcase["seed"], family=vcase["family"], record=record).problems))
                     minimized[sig] = small
                     vcase["minimized_events"] = small
                     text = text + f" [minimal history: {' '.join(small)}]"
+                if record is not None:
+                    text = text + f" [pairing record variant: {record}]"
                 ctx.violation(f"ip/{sig}", text, vcase)
+        upto = sim.model_upto
+        if upto is not None:
+            # composite events / an unscripted connection under a record that cannot work: the model speaks about the history before that
+            ctx.dist["model-tie-prefix-only"] += 1
+            if upto == 0:
+                continue
         cs.append(case)
-        impl.append(" ; ".join(x.strip() for x in sim.lines))
-        lines.append(rcsim.model_line_of(hosts, sim))
+        impl.append(" ; ".join(x.strip() for x in sim.lines[:upto]))
+        lines.append("rc.run " + ",".join(str(h) for h in hosts) + " " + " ".join(sim.model_events[:upto]))
     ctx.dist["max_virtual_seconds"] = int(maxv)
     if cs:
         ctx.sample(cs[min(7, len(cs) - 1)])
@@ -89,12 +135,20 @@ def run(ctx: Ctx, driver: Driver):
                      "the excluded-address set and every waiting caller's outcome and completion time")
 
 
+def replay_tuple(case):
+    """the case as run_cases takes it: same addresses, history, pairing-record variant, address family and accessory key seed"""
+    return (case["hosts"], case["events"], "replay", {"record": case.get("record"), "family": case.get("family"), "seed": case.get("seed")})
+
+
 def replay(ctx: Ctx, driver: Driver, case):
-    run_cases(ctx, driver, ID, SIGS, [(case["hosts"], case["events"], "replay")])  # family follows the case index rule
+    n = len(ctx.violations)
+    run_cases(ctx, driver, ID, SIGS, [replay_tuple(case)])
+    return [v["signature"] + ": " + v["what"] for v in ctx.violations[n:]]
 
 
 def search(ctx: Ctx, driver: Driver, broken):
     """the tie is broken: look for an implementation-level failure on a wider, deeper set of histories"""
     rng = ctx.rng
     cases = [(h, e, "search") for h, e in (rcsim.gen_random(rng, long_run=(i % 5 == 0)) for i in range(ctx.budget(3000, 30000)))]
+    cases += composite_cases(ctx, ctx.budget(1500, 6000), ctx.budget(1500, 6000), ctx.budget(1000, 6000))
     run_cases(ctx, driver, ID, SIGS, cases)
